@@ -244,12 +244,26 @@ def orders_chunk(job):
     ab = Abstraction(records)
     keys = [ab.key(r) for r in records]
     out = {"n": 0, "steps": 0, "viol": []}
+    import warnings as _warnings
     for order in orders:
         agg = TraceAggregator()
         S = set()
         out["n"] += 1
+        # ENVIRONMENT: every fifth order is ingested in a process that turns warnings into errors (python -W error,
+        # PYTHONWARNINGS=error, a test runner's filterwarnings): verdicts do not depend on the warning filters
+        strict = out["n"] % 5 == 2
         for pos, i in enumerate(order):
-            agg.ingest(records[i])
+            if strict:
+                with _warnings.catch_warnings():
+                    _warnings.simplefilter("error")
+                    try:
+                        agg.ingest(records[i])
+                    except Warning as w:
+                        out["viol"].append((f"environment:warnings-as-errors:{name}", f"universe {name}: with warnings turned into errors, ingesting "
+                                            f"{keys[i][:4]} after {[keys[j][:4] for j in order[:pos]]} raises {type(w).__name__}: {w}", {"universe": name, "order": list(order)}))
+                        break
+            else:
+                agg.ingest(records[i])
             S.add(keys[i])
             v1 = ab.verdicts(agg)
             v2 = ab.verdicts(agg)
